@@ -615,3 +615,21 @@ func oraclePayload(blob []byte) []byte {
 	}
 	return nil
 }
+
+// keyring returns every PGP entity of the universe.
+func (u *Universe) keyring() openpgp.EntityList {
+	var el openpgp.EntityList
+	for _, e := range u.PGP {
+		el = append(el, e)
+	}
+	return el
+}
+
+// allVerifiers returns every DSSE verifier of the universe.
+func (u *Universe) allVerifiers() []signature.Verifier {
+	var vs []signature.Verifier
+	for _, k := range u.DSSE {
+		vs = append(vs, k.sv)
+	}
+	return vs
+}
